@@ -119,7 +119,7 @@ def check_C16(ctx):
         D = decode.rule_decode_nopanic(ctx, cfg, F)
         ctx.rule("DECODE-NOPANIC").floor("decode_fns[%s]" % cfg, 15, cfg)
         decode.rule_borrow_scope(ctx, cfg, F, D)
-        ctx.rule("BORROW-SCOPE").floor("borrows[%s]" % cfg, 6, cfg)
+        ctx.rule("BORROW-SCOPE").floor("borrows[%s]" % cfg, 2, cfg)
         decode.rule_take_once(ctx, cfg, F, D)
         ctx.rule("DECODE-TAKE-ONCE").floor("conversion_sites[%s]" % cfg, 3, cfg)
         decode.rule_result_unwrap(ctx, cfg, F)
